@@ -4113,3 +4113,67 @@ fn register_rule_predicates(rule: &Rule, database: &mut SparqlDatabase) {
         }
     }
 }
+
+// ---- verif hooks C16 ----
+// Add-only wrappers compiled only with `--cfg kolibrie_verif`; no behaviour change.
+// They expose the private hand-written scanners of the unified SPARQL parser to the
+// verification harness (function-level correspondence with the Gallina model).
+#[cfg(kolibrie_verif)]
+pub fn verif_sparql_skip_ws(input: &str) -> &str {
+    sparql_skip_ws(input)
+}
+#[cfg(kolibrie_verif)]
+pub fn verif_sparql_unicode_escape_len(input: &str) -> Option<usize> {
+    sparql_unicode_escape_len(input)
+}
+#[cfg(kolibrie_verif)]
+pub fn verif_sparql_invalid_pn_prefix(prefix: &str) -> Option<&str> {
+    sparql_invalid_pn_prefix(prefix)
+}
+#[cfg(kolibrie_verif)]
+pub fn verif_sparql_char_classes(character: char) -> u32 {
+    (sparql_name_character(character) as u32)
+        | ((sparql_pn_chars_base(character) as u32) << 1)
+        | ((sparql_pn_chars_u(character) as u32) << 2)
+        | ((sparql_pn_chars(character) as u32) << 3)
+}
+#[cfg(kolibrie_verif)]
+pub fn verif_sparql_scan<'a>(scanner: &str, input: &'a str) -> Option<IResult<&'a str, &'a str>> {
+    Some(match scanner {
+        "variable" => sparql_variable(input),
+        "iri" => sparql_iri(input),
+        "blank_node" => sparql_blank_node(input),
+        "prefixed_name" => sparql_prefixed_name(input),
+        "numeric_literal" => sparql_numeric_literal(input),
+        "quoted_literal" => sparql_quoted_literal(input),
+        "bare_identifier" => sparql_bare_identifier(input),
+        "quoted_triple" => sparql_quoted_triple(input),
+        "subject_term" => sparql_subject_term(input),
+        "predicate_term" => sparql_predicate_term(input),
+        "object_term" => sparql_object_term(input),
+        "graph_name" => sparql_graph_name(input),
+        "filter_operator" => sparql_filter_operator(input),
+        _ => return None,
+    })
+}
+#[cfg(kolibrie_verif)]
+pub fn verif_sparql_keyword<'a>(input: &'a str, keyword: &str) -> IResult<&'a str, &'a str> {
+    sparql_keyword(input, keyword)
+}
+#[cfg(kolibrie_verif)]
+pub fn verif_sparql_triples_statement(input: &str) -> IResult<&str, Vec<LexicalTriplePattern<'_>>> {
+    sparql_triples_statement(input)
+}
+#[cfg(kolibrie_verif)]
+pub fn verif_sparql_quad_block(input: &str) -> IResult<&str, Vec<LexicalQuadPattern<'_>>> {
+    sparql_quad_block(input)
+}
+#[cfg(kolibrie_verif)]
+pub fn verif_sparql_select_core(input: &str, allow_dataset: bool) -> IResult<&str, SelectQuery<'_>> {
+    sparql_select_core(input, allow_dataset)
+}
+#[cfg(kolibrie_verif)]
+pub fn verif_sparql_update_core(input: &str, allow_data_aliases: bool) -> IResult<&str, UpdateOperation<'_>> {
+    sparql_update_core(input, allow_data_aliases)
+}
+// ---- end verif hooks C16 ----
